@@ -279,6 +279,41 @@ def crafted_aasx(tmp):
     rewrite("broken-origin-rels", lambda n, d: b"<Relationships" if n == "aasx/_rels/aasx-origin.rels" else d)
     rewrite("broken-root-rels", lambda n, d: b"<Relationships" if n == "_rels/.rels" else d)
     rewrite("no-content-types", lambda n, d: None if n == "[Content_Types].xml" else d)
+
+    def unknown_compression(src, member, name):
+        """the package with compression method 99 in the central-directory record (and local header) of one member"""
+        data = bytearray(open(src, "rb").read())
+        fn = member.encode()
+        for sig, moff, noff in ((b"PK\x01\x02", 10, 46), (b"PK\x03\x04", 8, 30)):
+            i = data.find(sig)
+            while i >= 0:
+                nlen = int.from_bytes(data[i + noff - (18 if sig == b"PK\x01\x02" else 4):][:2], "little")
+                if bytes(data[i + noff:i + noff + nlen]) == fn:
+                    data[i + moff:i + moff + 2] = (99).to_bytes(2, "little")
+                i = data.find(sig, i + 4)
+        out = os.path.join(tmp, name + ".aasx")
+        open(out, "wb").write(bytes(data))
+        res["aasx-" + name] = out
+    # several payload parts, one of them not valid against the schema (first / middle / last)
+    for pos in range(3):
+        p = os.path.join(tmp, f"parts{pos}.aasx")
+        with aasx.AASXWriter(p) as w:
+            for k in range(3):
+                w.write_all_aas_objects(f"/aasx/p{k}.json", model.DictObjectStore([model.Submodel(f"urn:part:{k}")]),
+                                        aasx.DictSupplementaryFileContainer(), write_json=True)
+        out = os.path.join(tmp, f"parts{pos}-invalid.aasx")
+        with zipfile.ZipFile(p) as zin, zipfile.ZipFile(out, "w") as zout:
+            for item in zin.infolist():
+                data = zin.read(item.filename)
+                zout.writestr(item, b'{"submodels": [{"modelType": "Submodel"}]}' if item.filename == f"aasx/p{pos}.json" else data)
+        res[f"aasx-three-json-parts-schema-invalid-part{pos}"] = out
+    goodj = os.path.join(tmp, "goodj.aasx")
+    write_store(full, "aasx-json", goodj, core=cp)
+    for src, tag in ((good, "xml"), (goodj, "json")):
+        with zipfile.ZipFile(src) as z:
+            members = z.namelist()
+        for member in members:
+            unknown_compression(src, member, f"unknown-compression-{tag}-" + re.sub(r"[^A-Za-z0-9]+", "_", member))
     # timezone-aware creation date
     cp2 = pyecma376_2.OPCCoreProperties()
     cp2.created = datetime.datetime(2020, 1, 1, 0, 0, 0, tzinfo=datetime.timezone.utc)
@@ -419,7 +454,8 @@ def collections_store():
 def unordered_list_store(before=0, after=0, inside=1):
     """a submodel with a property, an unordered SubmodelElementList and another property, and a second submodel"""
     from basyx.aas import model
-    sml = model.SubmodelElementList("l", model.Property, [model.Property(None, model.datatypes.Int, inside)],
+    items = inside if isinstance(inside, (list, tuple)) else [inside]
+    sml = model.SubmodelElementList("l", model.Property, [model.Property(None, model.datatypes.Int, v) for v in items],
                                     value_type_list_element=model.datatypes.Int, order_relevant=False)
     return model.DictObjectStore([
         model.Submodel("urn:x:sml", [model.Property("a_before", model.datatypes.Int, before), sml,
@@ -463,6 +499,9 @@ def call(fn, *paths, cleanup=True):
     from aas_compliance_tool.state_manager import ComplianceToolStateManager
     m = ComplianceToolStateManager()
     raised = None
+    if len(paths) == 2 and all(isinstance(p, str) and os.path.isfile(p) for p in paths):
+        for p in paths:                      # a compared pair never differs in its time stamps: only the content counts
+            os.utime(p, (1600000000, 1600000000))
     try:
         fn(*paths, m)
     except Exception as e:     # noqa
@@ -966,7 +1005,7 @@ def check_typed_values(chk, rng, quick, tmp, esc_model):
                         chk.count("perturbation=second-file-rejected-by-reader")
                     if overall == 0 or (loaded and statuses[-1] != 2):
                         undetected += 1
-                        chk.fail(f"C20:equivalence:undetected-perturbation:xs:{tname}:{key[1].split('-')[0]}",
+                        chk.fail(f"C20:equivalence:undetected-perturbation:xs:{tname}",
                                  f"two {fmt} files differing only in one xs:{tname} value ({key[1]}: {base[key]!r} vs "
                                  f"{alt!r}) compare as equal: steps {statuses}", rp)
     # Blob contents (bytes outside the xsd value types) and the special float values
@@ -1135,7 +1174,7 @@ def check_files(chk, rng, quick, tmp, esc_model, compared_model):
             f.write(data)
         return p
 
-    def run_one(fname, path, kind, expect_success=False, data=None):
+    def run_one(fname, path, kind, expect_success=False, data=None, expect_not_success=False):
         raised, statuses, overall = call(one[fname], path)
         if os.environ.get("C20_TRACE"):
             import hashlib
@@ -1156,6 +1195,8 @@ def check_files(chk, rng, quick, tmp, esc_model, compared_model):
             chk.fail("C20:status-not-worst", f"{fname}: overall {overall}, steps {statuses}", rp)
         if expect_success and overall != 0:
             chk.fail(f"C20:own-output-rejected:{fname}:{kind}", f"{fname} on an SDK-written file: steps {statuses}", rp)
+        if expect_not_success and overall == 0:
+            chk.fail(f"C20:invalid-input-accepted:{fname}:{kind}", f"{fname} on {kind}: steps {statuses}", rp)
 
     by_fmt = {"json": [f for f in one if f.startswith("json.")], "xml": [f for f in one if f.startswith("xml.")],
               "aasx": [f for f in one if f.startswith("aasx.")]}
@@ -1163,7 +1204,10 @@ def check_files(chk, rng, quick, tmp, esc_model, compared_model):
     blobs = [b"", b"\xff\xfe\x00abc\x80", b'{"assetAdministrationShells": [', b"[1,2]", b'"x"', b'{"a": 1}', b"null",
              b"<a><b/></a>", b"<a><b>", b"<?xml version='1.0'?><environment xmlns='https://admin-shell.io/aas/3/0'/>",
              b'{"submodels": [{"modelType": "Submodel"}]}', b'{"submodels": 5}', b"PK\x03\x04garbage",
-             b"[" * 3000 + b"]" * 3000, b"\xef\xbb\xbf{}", b'{"assetAdministrationShells": [], "x": "\\ud800"}']
+             b"[" * 3000 + b"]" * 3000, b"\xef\xbb\xbf{}", b'{"assetAdministrationShells": [], "x": "\\ud800"}',
+             # literals the json module refuses or mangles: an integer beyond the int/str conversion limit, huge exponents
+             b'{"assetAdministrationShells": [], "x": ' + b"1" * 5000 + b"}", b'{"x": 1e999999, "y": -1E-999999}',
+             b'{"x": NaN, "y": Infinity, "z": -Infinity}']
     for _ in range(10 if quick else 60):
         blobs.append(bytes(rng.randrange(256) for _ in range(rng.randint(1, 200))))
     for data in blobs:
@@ -1203,7 +1247,7 @@ def check_files(chk, rng, quick, tmp, esc_model, compared_model):
     # 3. crafted AASX packages
     for kind, p in crafted_aasx(tmp).items():
         for fname in by_fmt["aasx"]:
-            run_one(fname, p, kind)
+            run_one(fname, p, kind, expect_not_success=(fname == "aasx.check_schema" and "schema-invalid" in kind))
         raised, statuses, overall = call(two["aasx.check_aasx_files_equivalence"], p, p)
         chk.seen(("aasx-equiv", kind), nontrivial=bool(statuses))
         if raised is not None:
@@ -1310,10 +1354,14 @@ def check_files(chk, rng, quick, tmp, esc_model, compared_model):
                      f"itself: steps {statuses}", rp)
         # DIFFERENT data around the unordered list (before it, inside it, after it in the same submodel, in the next
         # submodel): whatever the checker's refusal does to the report, the verdict must not be SUCCESS
-        for where, kw in (("before", {"before": 5}), ("inside", {"inside": 5}), ("after", {"after": 5})):
+        pbag = os.path.join(tmp, "unordered-bag." + ext)
+        write_store(unordered_list_store(inside=[1, 1, 2]), fmt, pbag)
+        for where, kw, base in (("before", {"before": 5}, pu), ("inside", {"inside": 5}, pu), ("after", {"after": 5}, pu),
+                                # the same members with other multiplicities: equal as sets, different as bags
+                                ("bag-inside", {"inside": [1, 2, 2]}, pbag), ("longer-inside", {"inside": [1, 1, 2, 2]}, pbag)):
             pd = os.path.join(tmp, f"unordered-{where}." + ext)
             write_store(unordered_list_store(**kw), fmt, pd)
-            for a, b, direction in ((pu, pd, "ab"), (pd, pu, "ba")):
+            for a, b, direction in ((base, pd, "ab"), (pd, base, "ba")):
                 raised, statuses, overall = call(two[eq_fn[ext]], a, b)
                 chk.seen(("equiv-unordered-diff", fmt, where, direction), nontrivial=True)
                 chk.count("equivalence=different-data-around-unordered-list")
@@ -1550,8 +1598,11 @@ def replay(path):
             fmt = next(f for f in ("aasx-json", "json", "xml") if f" in {f}," in kind)
             ext = fmt.split("-")[0]
             pa, pb = os.path.join(tmp, "u0." + ext), os.path.join(tmp, "u1." + ext)
-            write_store(unordered_list_store(), fmt, pa)
-            write_store(unordered_list_store(**{rp["where"]: 5}), fmt, pb)
+            kws = {"before": ({}, {"before": 5}), "inside": ({}, {"inside": 5}), "after": ({}, {"after": 5}),
+                   "bag-inside": ({"inside": [1, 1, 2]}, {"inside": [1, 2, 2]}),
+                   "longer-inside": ({"inside": [1, 1, 2]}, {"inside": [1, 1, 2, 2]})}[rp["where"]]
+            write_store(unordered_list_store(**kws[0]), fmt, pa)
+            write_store(unordered_list_store(**kws[1]), fmt, pb)
             fn = {"json": "json.check_json_files_equivalence", "xml": "xml.check_xml_files_equivalence",
                   "aasx": "aasx.check_aasx_files_equivalence"}[ext]
             a, b = (pa, pb) if rp.get("direction") != "ba" else (pb, pa)
